@@ -8,8 +8,11 @@
 //!   C27 ng host=<hex|~>                          -> <0|1>            (`host_is_non_global`)
 //!   C27 chain allow=~ redir=<0|1> mode=<s|a> m= body= hdrs= u= hops=<E|R:status:loc:join|…>
 //!                                                -> <result> n=<k> t=<req|req|…>
+//!   C27 site kind=<ctx|tsa|remote> …same fields…   -> <ok|refusal class|err> n=<k>
 //! `chain` runs `RedirectResolver::new(transport, allow_redirects)` (hook constructor) over a
-//! scripted recording transport, sync or async.
+//! scripted recording transport, sync or async; `site` issues one request at a request site of the
+//! SDK (Context resolver, the signer's default time-stamp request, the settings-configured remote
+//! signer) against a loopback listener that answers with a redirect to itself (an internal host).
 
 #[path = "../net_c26_c27.rs"]
 mod net;
@@ -379,9 +382,74 @@ fn fixed_chains(run: &mut Run, rng: &mut Rng) {
     }
 }
 
+/// "The SDK": the request sites that do not use the caller's Context (`Model/C26.lean`, `Site`),
+/// driven on the real code. The listener answers the first request with a redirect to itself, i.e.
+/// to a loopback address: no second request may arrive, and with redirects disabled the outcome
+/// must be the redirect-disallowed refusal.
+fn site_cases(run: &mut Run) {
+    let Some(mut lb) = loopback() else {
+        run.notes.push("loopback listener unavailable: request-site cases skipped".to_string());
+        run.obligations.insert("request-sites-driven-over-loopback".to_string(), false);
+        return;
+    };
+    let internal = format!("{}/internal", lb.base());
+    let url = lb.redirect_to(&internal);
+    let mut ran = 0;
+    for kind in [SiteKind::Ctx, SiteKind::Tsa, SiteKind::Remote] {
+        for redirects in [true, false] {
+            let c = ChainCase {
+                allow: None,
+                redirects,
+                method: "POST".into(),
+                uri: url.parse().expect("uri"),
+                headers: vec![],
+                body: vec![],
+                script: vec![Reply::Resp { status: 302, locations: vec![internal.clone().into_bytes()] }, Reply::Resp { status: 200, locations: vec![] }],
+                async_mode: false,
+            };
+            let (_, hops) = plan(&c.uri, &c.script);
+            let req = format!("C27 site kind={} {}", kind.tag(), c.line(&hops));
+            match run_site(&lb, kind, &None, redirects, &url) {
+                Ok((class, hits)) => {
+                    ran += 1;
+                    run.count(&format!("site_{}_{}_calls_{}", kind.tag(), class, hits.len()));
+                    run.nontrivial(req.clone());
+                    let idx = run.case(req, format!("{class} n={}", hits.len()));
+                    let later_internal = hits.iter().skip(1).any(|h| hit_uri(&lb, h).and_then(|u| u.host().and_then(spec_internal_host)).is_some());
+                    if later_internal {
+                        let cls = match kind {
+                            SiteKind::Remote => "remote-signer-follows-redirect-to-internal-host",
+                            SiteKind::Tsa => "signer-timestamp-redirect-to-internal-host",
+                            SiteKind::Ctx => "internal-host-requested-v4",
+                        };
+                        run.fail(idx, cls, format!("the {} request to {url} was redirected to {internal} and followed: listener saw {hits:?}", kind.tag()));
+                    }
+                    if !redirects {
+                        if hits.len() > 1 {
+                            let cls = if kind == SiteKind::Remote { "remote-signer-follows-redirect-while-disabled" } else { "redirect-followed-while-disabled" };
+                            run.fail(idx, cls, format!("core.allow_redirects = false, yet the {} request followed the redirect: listener saw {hits:?}", kind.tag()));
+                        } else if class != "redirect-disallowed" {
+                            let cls = match kind {
+                                SiteKind::Tsa => "signer-timestamp-request-ignores-allow-redirects",
+                                SiteKind::Remote => "remote-signer-follows-redirect-while-disabled",
+                                SiteKind::Ctx => "redirect-not-refused-while-disabled",
+                            };
+                            run.fail(idx, cls, format!("core.allow_redirects = false, yet the redirect answered to the {} request was not refused as disabled (outcome {class}: the target was resolved and classified, a public target would have been requested)", kind.tag()));
+                        }
+                    }
+                }
+                Err(e) => run.notes.push(format!("site case {} not run: {e}", kind.tag())),
+            }
+        }
+    }
+    lb.shutdown();
+    run.obligations.insert("request-sites-driven-over-loopback".to_string(), ran == 6);
+}
+
 pub fn run(run: &mut Run, rng: &mut Rng) {
     run.rule = "address texts from grammars for IPv4 (strict/loose parts, counts, zeros) and IPv6 (groups, `::` anywhere, embedded dotted quad, zone, brackets) plus point mutations, against std's parsers; hosts in every notation of the statement (decimal/octal/hex/short/percent/padded IPv4, mapped/compatible/NAT64/6to4 IPv6, block edges ±1, localhost names) against host_is_non_global; redirect chains of 0–12 hops (Location from the grammar, header sets with the four sensitive names in mixed case) through RedirectResolver over a scripted recording transport. Non-trivial: an accepted address text, a host of a listed block, a chain ending in a refusal/limit or forwarding a request that carried sensitive headers; distinct by request text".to_string();
     v4_sweep(run);
+    site_cases(run);
     fixed_chains(run, rng);
     let scale = if run.thorough() { 30 } else { 1 };
     for _ in 0..25_000 * scale {
